@@ -1,4 +1,4 @@
-import AasVerif.Model.XsdPattern
+import AasVerif.Lemmas.XsdRead
 /-!
 Decidable checks of the escaping tables against the XSD reader (`XsdRe.read`).
 -/
@@ -16,14 +16,6 @@ def readsAsMember (t : Text) (k : Nat) : Bool :=
   match XsdRe.read ([91] ++ t ++ [93]) with
   | .ok (.mk [.mk [.mk (.set false [⟨c, none⟩]) none]]) => c.code == k && !c.enc
   | _ => false
-
-/-- Characters that may not stand for themselves outside a character class (XSD 1.1:
-`NormalChar ::= [^.\?*+{}()|\[\]]`). -/
-def metaLit : List Nat := [46, 92, 63, 42, 43, 123, 125, 40, 41, 124, 91, 93]
-
-/-- Characters that may not stand for themselves inside a character class (besides the
-positional rules for `^` and `-`): `\ [ ]` and the dash. -/
-def metaRng : List Nat := [92, 91, 93, 45]
 
 /-- Every entry of a literal table is read back as its key, and every metacharacter has an entry. -/
 def litTableOk (tbl : EscTable) : Bool :=
